@@ -151,6 +151,80 @@ func runMontgomery(c *engine.Ctx) {
 		}
 		t.Extra("montgomery_boundary_points", found)
 	})
+	// pairs of DISTINCT points with the SAME ordinate (x1 != x2, y1 == y2): the addition formulas compute u = x2-x1 and
+	// r = y2-y1 and branch on both; "r == 0" alone is neither equality nor inverse. For a = -3: x2 is a root of
+	// x^2 + x1*x + x1^2 - 3, i.e. x2 = (-x1 +- sqrt(12 - 3*x1^2))/2.
+	c.Case("special-pairs/same-ordinate-different-abscissa", func(t *engine.T) {
+		p := curve.P
+		inv2 := new(big.Int).ModInverse(big.NewInt(2), p)
+		found := 0
+		for x1v := int64(1); x1v < 400 && found < 12; x1v++ {
+			x1 := big.NewInt(x1v)
+			disc := new(big.Int).Sub(big.NewInt(12), new(big.Int).Mul(big.NewInt(3), new(big.Int).Mul(x1, x1)))
+			disc.Mod(disc, p)
+			rt := new(big.Int).ModSqrt(disc, p)
+			if rt == nil {
+				continue
+			}
+			p1, ok := curve.LiftX(x1, 0)
+			if !ok {
+				continue
+			}
+			for _, sgn := range []int{1, -1} {
+				x2 := new(big.Int).Neg(x1)
+				if sgn > 0 {
+					x2.Add(x2, rt)
+				} else {
+					x2.Sub(x2, rt)
+				}
+				x2.Mul(x2, inv2).Mod(x2, p)
+				if x2.Cmp(x1) == 0 {
+					continue
+				}
+				p2 := ecref.Point{X: x2, Y: new(big.Int).Set(p1.Y)}
+				if !curve.OnCurve(p2) {
+					continue
+				}
+				found++
+				what := fmt.Sprintf("(%d, y) + (%x, y) with the same y", x1v, x2)
+				want := curve.Add(p1, p2)
+				t.Guard("special-pairs/internal", func() {
+					a, e1 := vh.NewSM2P256Point().SetBytes(p1.Uncompressed())
+					b, e2 := vh.NewSM2P256Point().SetBytes(p2.Uncompressed())
+					if e1 != nil || e2 != nil {
+						t.Fail("special-pairs/valid-point-rejected", "%s: %v %v", what, e1, e2)
+						return
+					}
+					checkIPoint(t, "special-pairs/same-ordinate/add-mismatch", what, vh.NewSM2P256Point().Add(a, b), want)
+					checkIPoint(t, "special-pairs/same-ordinate/add-mismatch", what+" (operands swapped)", vh.NewSM2P256Point().Add(b, a), want)
+					a2, _ := vh.NewSM2P256Point().SetBytes(p1.Uncompressed())
+					checkIPoint(t, "special-pairs/same-ordinate/add-aliased-mismatch", "a.Add(a,b): "+what, a2.Add(a2, b), want)
+					// the same through projective operands: [2]P1 - P1 and P2
+					d := vh.NewSM2P256Point().Double(a)
+					na, _ := vh.NewSM2P256Point().SetBytes(curve.Neg(p1).Uncompressed())
+					pa := vh.NewSM2P256Point().Add(d, na) // = P1 in projective form
+					checkIPoint(t, "special-pairs/same-ordinate/add-mismatch/projective", what, vh.NewSM2P256Point().Add(pa, b), want)
+				})
+				t.Guard("special-pairs/public", func() {
+					x, y := lib.Add(p1.X, p1.Y, p2.X, p2.Y)
+					if x.Cmp(want.X) != 0 || y.Cmp(want.Y) != 0 {
+						t.Fail("special-pairs/same-ordinate/add-mismatch/public", "%s = (%x, %x), want (%x, %x)", what, x, y, want.X, want.Y)
+					}
+					// [k]P1 + [1]P2 through the combined multiplication where it exists
+					if cm, ok := lib.(interface {
+						CombinedMult(*big.Int, *big.Int, []byte, []byte) (*big.Int, *big.Int)
+					}); ok {
+						_ = cm
+					}
+				})
+				t.Eval(6)
+				t.Nontrivial(fmt.Sprintf("same-ordinate/%d/%d", x1v, sgn))
+			}
+		}
+		if found < 4 {
+			t.Fail("special-pairs/vacuous", "only %d same-ordinate pairs found", found)
+		}
+	})
 	// argument identity: the curve's own parameter objects as coordinates
 	c.Case("identity/params-objects-as-arguments", func(t *engine.T) {
 		prm := lib.Params()
